@@ -283,7 +283,7 @@ def run_searcher(built, fs, K):
                 ([[r.tag, r.linenumber, [canon_val(v) for v in r]] for r in sec]
                  for sec in found.values()), key=repr)
     return {'paths': observe_collection(built, results, K),
-            'def_ids': built.def_ids,
+            '_def_ids': built.def_ids,
             'sections': sections,
             'stats': {'lines': st['lines_searched'], 'results': st['results'],
                       'searches': st['searches'],
@@ -291,6 +291,11 @@ def run_searcher(built, fs, K):
                       'jobs_completed': st['jobs_completed'],
                       'total_jobs': st['total_jobs']},
             'len': len(results)}
+
+
+def pub(obs):
+    """ the observation without harness bookkeeping (keys starting with '_') """
+    return {k: v for k, v in obs.items() if not k.startswith('_')}
 
 
 def run_impl(scn):
